@@ -1,5 +1,6 @@
 import Norad.Props.C06
 import Norad.Props.C06Source
+import Norad.Props.Small
 #print axioms Layers.inv_init
 #print axioms Layers.inv_loaded
 #print axioms Layers.inv_step
@@ -32,3 +33,4 @@ import Norad.Props.C06Source
 #print axioms Layers.source_renameGlyph_refuses_iff
 #print axioms Layers.source_index_updates_match_model
 #print axioms Layers.model_frame_rules
+#print axioms Small.name_predicates_agree
